@@ -257,6 +257,14 @@ class ChangeScenario(Scenario):
                 w.merge(K, 'ns', args[0], {'spec': {'x': args[1]}})
             elif action == 'label':
                 w.merge(K, 'ns', args[0], {'metadata': {'labels': {args[1]: args[2]}}})
+            elif action == 'append':      # a list in the spec grows at its tail
+                w.edit(K, 'ns', args[0], lambda o: o.setdefault('spec', {}).setdefault('items', []).append(len(o['spec']['items']) + 1))
+            elif action == 'truncate':    # ... or loses its last item (an empty list stays: a no-op write)
+                def _truncate(o: dict) -> None:
+                    items = o.setdefault('spec', {}).setdefault('items', [0])
+                    if items:
+                        items.pop()
+                w.edit(K, 'ns', args[0], _truncate)
             elif action == 'status':
                 w.merge(K, 'ns', args[0], {'status': {'foreign': args[1]}})
             elif action == 'annotate':
